@@ -767,4 +767,17 @@ theorem wellBehaved_sound (effs : List Eff) (hwb : WellBehaved effs = true) (env
     exact hacc.1.1.1.1.1.1
   exact accept_sound hacc (run_sound effs (rel_init s env h) hf)
 
+theorem rel_unknown (s0 : State K) (env : Env K) : Rel s0 env aunknown s0 :=
+  ⟨rfl, fun _ => rfl, fun i hi => by simp [aunknown, lookupA] at hi, trivial, trivial, trivial, trivial,
+    fun h => by simp [aunknown] at h, fun h => by simp [aunknown] at h⟩
+
+/-- a constructor whose effect list is accepted from no knowledge establishes the invariant from ANY state -/
+theorem wellBehavedInit_sound (effs : List Eff) (hwb : WellBehavedInit effs = true) (env : Env K) (s : State K) :
+    Inv (run env s effs) := by
+  have hacc : accept (effs.foldl astep aunknown) = true := hwb
+  have hf : (effs.foldl astep aunknown).fail = false := by
+    simp only [accept, Bool.and_eq_true, Bool.not_eq_true'] at hacc
+    exact hacc.1.1.1.1.1.1
+  exact accept_sound hacc (run_sound effs (rel_unknown s env) hf)
+
 end C12
